@@ -45,6 +45,20 @@ enum Choice {
     },
 }
 
+#[derive(BinaryCodec)]
+enum Att {
+    Plain(u8),
+    #[transient]
+    Temp,
+}
+
+#[derive(BinaryCodec)]
+#[evolution(FieldAdded("att", Att::Plain(0)))]
+struct Envelope {
+    id: u32,
+    att: Att,
+}
+
 struct Node {
     label: u8,
     next: RefCell<Option<Rc<Node>>>,
@@ -93,9 +107,9 @@ fn ring3() -> (Ring, Vec<Rc<Node>>) {
 // ---------------------------------------------------------------------------------------------
 // the calls; each returns an observation (bytes, or a rendering of the decoded value)
 
-const N_CALLS: usize = 7;
+const N_CALLS: usize = 8;
 const CALL_NAMES: [&str; N_CALLS] =
-    ["enc Outer (nested evolved, dedup)", "dec Outer", "enc Vec<Dedup>", "enc ring of 3 refs", "enc Choice::C", "dec (u8,String)", "dec Vec<Dedup> with back-refs"];
+    ["enc Outer (nested evolved, dedup)", "dec Outer", "enc Vec<Dedup>", "enc ring of 3 refs", "enc Choice::C", "dec (u8,String)", "dec Vec<Dedup> with back-refs", "enc Envelope that FAILS in chunk 1 after chunk 0 was written"];
 
 fn outer_value() -> Outer {
     Outer {
@@ -140,6 +154,7 @@ fn call(i: usize, fixtures: &Fixtures) -> Vec<u8> {
         6 => render(desert::deserialize::<Vec<DeduplicatedString>>(&[6, 2, b'x', 2, b'y', 1]), |v| {
             v.iter().map(|s| s.0.clone()).collect::<Vec<_>>().join(",").into_bytes()
         }),
+        7 => render(desert::serialize_to_byte_vec(&Envelope { id: 0xdead_beef, att: Att::Temp }), |b| b),
         _ => unreachable!(),
     }
 }
@@ -205,7 +220,9 @@ fn fixtures() -> Fixtures {
         choice_bytes,
         b"7 h".to_vec(),
         b"x,y,x".to_vec(),
+        format!("ERR {:?}", desert::Error::SerializingTransientConstructor { constructor_name: "Temp".to_string(), type_name: "Att".to_string() }).into_bytes(),
     ];
+    let _ = Att::Plain(1);
     Fixtures { outer_bytes, expected }
 }
 
